@@ -177,7 +177,7 @@ def compare(ctx, cases, impl, model, stats):
 
 def run_cases(ctx, exe, cases_path):
     impl = cases_path + ".impl"; model = cases_path + ".model"
-    rc, out, err = ctx.run([exe, "run", cases_path, impl], timeout=3000)
+    rc, out, err = ctx.run([exe, "run", cases_path, impl], timeout=3000, env={"OPENBLAS_NUM_THREADS": "1", "OMP_NUM_THREADS": "1"})
     if rc != 0:
         ctx.tie_ok = False; ctx.broken.append({"kind": "harness runner failed", "rc": rc, "stderr": err[-800:]})
         return None
